@@ -157,7 +157,7 @@ func Calibrate(repoLib string) (rep CalibReport, err error) {
 		}
 		// field: sqrt / inverse / cube root
 		v := FRed(z1)
-		if FMul(v, FInv(v)).Cmp(one) != 0 {
+		if FMul(v, FInv(v)).Cmp(one) != 0 || FInv(v).Cmp(FInvFermat(v)) != 0 || FInv(new(big.Int)).Sign() != 0 {
 			return rep, fail("field inverse")
 		}
 		if r, ok := FSqrt(FSqr(v)); !ok || (r.Cmp(v) != 0 && r.Cmp(FNeg(v)) != 0) {
